@@ -155,10 +155,16 @@ retry:
 			case '=':
 				tok = EQEQ
 				lit = "=="
-			case ' ':
-				if s.peekPlus(1) == '<' && s.peekPlus(2) == '-' {
-					s.next()
-					s.next()
+			default:
+				// '=' followed by '<-', with any blanks in between, is the receive assignment
+				blanks := 0
+				for s.peekPlus(blanks) == ' ' || s.peekPlus(blanks) == '\t' {
+					blanks++
+				}
+				if s.peekPlus(blanks) == '<' && s.peekPlus(blanks+1) == '-' {
+					for i := 0; i <= blanks; i++ {
+						s.next()
+					}
 					tok = EQOPCHAN
 					lit = "= <-"
 				} else {
@@ -166,10 +172,6 @@ retry:
 					tok = int(ch)
 					lit = string(ch)
 				}
-			default:
-				s.back()
-				tok = int(ch)
-				lit = string(ch)
 			}
 		case '?':
 			s.next()
